@@ -774,6 +774,7 @@ void KMeansppCenters(matrix *m,
   dvector *D;
   dvector *D_square;
   size_t q = n; /*get the number of clusters*/
+  size_t picked;
 
   pthread_t *threads = xmalloc(sizeof(pthread_t)*nthreads);
   kmpp_th_args *arg = xmalloc(sizeof(kmpp_th_args)*nthreads);
@@ -819,6 +820,7 @@ void KMeansppCenters(matrix *m,
       * A = D(x_1)^2 + D(x_2)^2 + ... D(x_i)^2
       * B = D(x_1)^2 + D(x_2)^2 + ... + D(x_(i-1))^2
       */
+    picked = 0;
     for(i = 0; i < D_square->size; i++){
       for(j = 0; j <= i; j++){
         A += getDVectorValue(D_square, j);
@@ -833,7 +835,7 @@ void KMeansppCenters(matrix *m,
       if(A >= y && y > B ){
         if(UIVectorHasValue(selections, i) == 1){
           UIVectorAppend(selections, i);
-          q--;
+          picked = 1;
           break;
         }
         else{
@@ -841,6 +843,23 @@ void KMeansppCenters(matrix *m,
         }
       }
     }
+
+    if(picked == 0){
+      /* No point has a positive distance from the selected centres (duplicated rows):
+       * take the first row that is not a centre yet, or stop when every row is one.
+       */
+      for(i = 0; i < m->row; i++){
+        if(UIVectorHasValue(selections, i) == 1){
+          UIVectorAppend(selections, i);
+          picked = 1;
+          break;
+        }
+      }
+      if(picked == 0){
+        break;
+      }
+    }
+    q--;
   }
   DelDVector(&D);
   DelDVector(&D_square);
